@@ -859,6 +859,7 @@ def oracle(ctx, scale=1):
     from props import c02_probes
     out += c02_probes.judge_inplace_after_run("%d" % ctx.seed)
     out += c02_probes.judge_oneshot_return_states("%d" % ctx.seed)
+    out += c02_probes.judge_call_iterable_forms("%d" % ctx.seed)
     return {"evaluations": n + 2 + len(mscs) + 8, "violations": out,
             "rule": "Model.run(return_states='all') vs explicit evaluation of each real node after its predecessors; result form; nodes with a non-default dtype; "
                     "to_data_mapping / unfold_mapping / fold_mapping / Model.run over 1-3 sequences decided directly (keys, sequence counts, values, per-sequence runs); "
@@ -866,6 +867,10 @@ def oracle(ctx, scale=1):
 
 
 def replay(payload):
+    if (payload.get("scenario") or {}).get("kind") == "call-iterable-forms":
+        from props import c02_probes
+        vs = c02_probes.judge_call_iterable_forms("rp")
+        return {"violates": bool(vs), "detail": vs[:1]}
     if (payload.get("scenario") or {}).get("kind") == "oneshot-return-states":
         from props import c02_probes
         vs = c02_probes.judge_oneshot_return_states("rp")
@@ -882,3 +887,19 @@ def replay(payload):
         return {"violates": bool(v), "detail": v}
     v = _judge(payload["scenario"])
     return {"violates": bool(v), "detail": v}
+
+
+# ------------------------------------------------------------------------------------------ tie (T)
+def pregen(ctx):
+    """tie (T) for the data dispatcher and the forward pass: re-translate class DataDispatcher (__init__, _check_inputs, get,
+    __getitem__, load) of utils/graphflow.py and forward(model, x) of model.py of the tree under test into coq/gen/Gen_dispatch.v
+    (a rejected translation leaves a stub that does not compile, so proofs/Gen_dispatch_eq.v and props/C02.v stop checking)"""
+    from vlib import py2coq_dispatch
+    return py2coq_dispatch.pregen()
+
+
+TRUSTED += ["tie T (dispatcher / forward pass): the translator tools/vlib/py2coq_dispatch.py and its preludes coq/base/PyColl.v, PyColl2.v, "
+            "PyColl3.v as the meaning of the Python constructs it accepts; pinned by text: utils.safe_defaultdict_copy, DataPoint, the plain "
+            "properties Model.nodes / edges / input_nodes / output_nodes / data_dispatcher, `Model._dispatcher = DataDispatcher(self)`, "
+            "`Model._forward = forward` run by Model._call; is_mapping / isinstance(_, _Node) are read as the case distinction of the "
+            "input / source sum types; node states and node calls (_base.call) are parameters"]
